@@ -16,6 +16,7 @@ partial def parseOp (j : Json) : Except String Op := do
   match ← getStr j "op" with
   | "newInst" => return .newInst (← getNat j "c") (← kwPairs (← j.getObjVal? "kw"))
   | "instSet" => return .instSet (← getNat j "i") (← getStr j "n") (← getNat j "v")
+  | "instSetAsync" => return .instSetAsync (← getNat j "i") (← getStr j "n") (← getNat j "v")
   | "instSetSame" => return .instSetSame (← getNat j "i") (← getStr j "n")
   | "update" => return .update (← getNat j "i") (← kwPairs (← j.getObjVal? "kvs"))
   | "clsSet" => return .clsSet (← getNat j "c") (← getStr j "n") (← getNat j "v")
@@ -31,7 +32,7 @@ def resName : Res → String
   | .keyError => "KeyError" | .runtimeError => "RuntimeError" | .stuck => "stuck"
 
 def opName : Op → String
-  | .newInst .. => "newInst" | .instSet .. => "instSet" | .instSetSame .. => "instSetSame"
+  | .instSetAsync .. => "instSetAsync" | .newInst .. => "newInst" | .instSet .. => "instSet" | .instSetSame .. => "instSetSame"
   | .update .. => "update" | .clsSet .. => "clsSet" | .flag .. => "flag" | .clsFlag .. => "clsFlag"
   | .getParam .. => "getParam" | .raise => "raise" | .block .. => "block"
 
@@ -56,6 +57,7 @@ def branchOf (s : St) (op : Op) (r : Res) : String :=
   let extra := match op with
     | .instSet i n _ => guardTag s i n ++ hasCopy s i n
     | .instSetSame i n => guardTag s i n
+    | .instSetAsync i n _ => guardTag s i n
     | .clsSet c n _ => match descriptor s c n with
         | some (_, owner) => (if owner == c then ":own" else ":copy-on-write") ++
             (match clsFlags s c n with | some (_, true) => ":readonly" | some (true, _) => ":constant" | _ => ":plain")
@@ -97,8 +99,8 @@ def handle (req : Json) : Except String Json := do
     let mro ← nats (← c.getObjVal? "mro")
     let decl ← (← getArr c "decl").toList.mapM fun e => do
       let a ← e.getArr?
-      if a.size != 4 then throw "decl: [name, constant, readonly, default] expected"
-      return (← a[0]!.getStr?, ← a[1]!.getBool?, ← a[2]!.getBool?, ← a[3]!.getNat?)
+      if a.size != 5 then throw "decl: [name, constant, readonly, default, allow_refs] expected"
+      return (← a[0]!.getStr?, ← a[1]!.getBool?, ← a[2]!.getBool?, ← a[3]!.getNat?, ← a[4]!.getBool?)
     return (mro, decl)
   let ops ← (← getArr case "steps").toList.mapM parseOp
   let s0 := initState npool decls
